@@ -144,6 +144,16 @@ Cond(T, i) ==
       [] n.k = "Max" -> TRUE
       [] OTHER -> \E c \in Kids(T, i) : Cond(T, c)
 
+\* span of an Allocation-only sub-expression (independent of the placement)
+RECURSIVE FixStart(_, _)
+FixStart(T, i) ==
+    LET n == T.nodes[i] IN
+    IF n.k = "Allocation" THEN n.start ELSE MinOf({FixStart(T, c) : c \in Kids(T, i)})
+RECURSIVE FixEnd(_, _)
+FixEnd(T, i) ==
+    LET n == T.nodes[i] IN
+    IF n.k = "Allocation" THEN n.start + n.dur ELSE MaxOf({FixEnd(T, c) : c \in Kids(T, i)})
+
 RECURSIVE Sat(_, _, _)
 Sat(T, P, i) ==
     LET n == T.nodes[i] IN
@@ -151,7 +161,10 @@ Sat(T, P, i) ==
       [] n.k = "Allocation" -> TRUE
       [] n.k = "Max" -> \E c \in Kids(T, i) : Sat(T, P, c)
       [] n.k = "Min" -> \A c \in Kids(T, i) : Sat(T, P, c)
-      [] n.k = "LessThan" -> Sat(T, P, n.ch[1]) /\ Sat(T, P, n.ch[2])
+      [] n.k = "LessThan" ->
+            /\ Sat(T, P, n.ch[1]) /\ Sat(T, P, n.ch[2])
+            \* two running tasks in the wrong order: never satisfied, whatever is placed
+            /\ (~Cond(T, n.ch[1]) /\ ~Cond(T, n.ch[2])) => FixEnd(T, n.ch[1]) <= FixStart(T, n.ch[2])
       [] n.k = "Scale" -> Sat(T, P, n.ch[1])
       [] OTHER -> TRUE
 
@@ -329,7 +342,8 @@ CheckRec(r) ==
     LET T == Batch.trees[r.tree]
         M == Batch.models[r.model]
         P == PlacementOf(T, r)
-        strays == {j \in 1..Len(r.pl) : r.pl[j].leaf \notin Leaves(T)}
+        strays == {j \in 1..Len(r.pl) : \/ r.pl[j].leaf \notin Leaves(T)
+                                         \/ \E k \in 1..Len(r.pl) : k # j /\ r.pl[k].leaf = r.pl[j].leaf}
         U == TreeUtility(T, P)
         ut == UseTable(T, P)
     IN
@@ -339,7 +353,7 @@ CheckRec(r) ==
     /\ \/ Len(r.x) # Len(M.lb)
        \/ Flag(ObjVal(M, r.x) # r.robj \/ r.robj # r.rutil, r.id, "C20.utility_eq",
                [kind |-> "objective", model |-> ObjVal(M, r.x), reported |-> r.robj, root |-> r.rutil])
-    /\ Flag(strays # {}, r.id, "C20.choose_exact", [kind |-> "placement of an unknown task", n |-> strays])
+    /\ Flag(strays # {}, r.id, "C20.choose_exact", [kind |-> "placement that belongs to no leaf (or two to one)", n |-> strays])
     /\ \A i \in Leaves(T) :
           /\ Flag(P[i].on /\ ~LeafOK(T, P, i), r.id, "C20.choose_exact",
                   [node |-> i, bad |-> LeafBad(T, P, i), got |-> P[i]])
